@@ -136,10 +136,16 @@ PROPS = {
                 "the spec verdict is relational (bin membership, distances, prefix order, size constraints, evenness)",
     },
     "C09": {
-        "streams": {"C09": (400, 6000)},
+        "extra_imports": ["Gofasta.Lemmas.CsvRoundTrip"],
+        "extra_theorems": ["Gofasta.Lemmas.CsvRT.csv_roundtrip", "Gofasta.Lemmas.CsvRT.run_id_comma", "Gofasta.Lemmas.CsvRT.atoi_digitsOf",
+                           "Gofasta.Lemmas.CsvRT.ambArr_render", "Gofasta.Lemmas.CsvRT.splitB_joinB"],
+        "streams": {"C09": (400, 6000), "C09csv": (600, 8000)},
         "thorough_seeds": 3,
-        "rule": "as C08 (1-5 queries: m > 1 in about 80% of cases); the CSV forms are produced by the real updown.List; the real TopRanking is run in all four "
-                "csv/fasta combinations and the four outputs must be byte-identical and not an error",
+        "rule": "as C08 (1-5 queries: m > 1 in about 80% of cases; 1 case in 6 with IDs holding a double quote and/or a comma); the CSV forms are produced by the "
+                "real updown.List; the real TopRanking is run in all four csv/fasta combinations and the four outputs must be byte-identical and not an error. "
+                "Stream C09csv: the CSV text layer alone - the bytes of the real updown.List against the rendering model and, read back by both real readers "
+                "(exported under the verif tag), against the rows themselves; 16 structural/quoting/number corruptions of such files against the Lean model of "
+                "encoding/csv + getAmbArr + Atoi (ok / error / panic)",
     },
     "C12": {
         "streams": {"C12": (64, 400)},
